@@ -4,6 +4,7 @@ package main
 
 import (
 	"fmt"
+	"go/token"
 	"go/types"
 	"os"
 	"regexp"
@@ -1214,6 +1215,13 @@ func a4(w *World, r *Report) {
 				badT = fmt.Sprintf("for (type=%d, receiverHasCode=%v): %d successful path(s) remain after the EVM controller's failure", a.typ, a.hasCode, nTol)
 			}
 		}
+		// a shape the path walk cannot decide (the error merged with other handlers'
+		// errors in one variable) is still fine when every test the executor applies
+		// to the EVM controller's answer is a comparison with nil or with the sentinel
+		// object: then nothing but identity can have tolerated it
+		if badT != "" && w.evmAnswerTestedByIdentityOnly(rt) {
+			badT = ""
+		}
 		if nT == 0 {
 			r.Undecided("A-4", "runTrx:evm-error-tolerated-only-for-sentinel", "runTrx has no successful path for an EVM-routed transaction", fnSite(w, rt))
 		} else {
@@ -1236,6 +1244,101 @@ func a4(w *World, r *Report) {
 		okp = len(a) == 6 && (sameValue(a[4], snap) || w.Canon(a[4]) == w.Canon(snap))
 	}
 	r.Check(okp, "A-4", "ExecuteTrx:snapshot-before-prepare", "the snapshot is taken before Prepare syncs the sender/receiver in and its id is handed to Prepare", "Prepare runs before the snapshot or without its id (synced-in accounts would survive a revert)", fnSite(w, fn))
+}
+
+// evmAnswerTestedByIdentityOnly: in rt and the module helpers it calls (depth 2),
+// the result of TrxEVMHandler.ExecuteTrx — followed through merges, interface
+// conversions, and into helpers it is passed to — is only returned, stored in a
+// local, or compared (==, !=) with nil or with a package-level error object. A
+// call that takes it (errors.Is, a Code() accessor, a library function) is a test
+// of another kind.
+func (w *World) evmAnswerTestedByIdentityOnly(rt *ssa.Function) bool {
+	ok, found := true, false
+	seen := map[ssa.Value]bool{}
+	var follow func(v ssa.Value, d int)
+	follow = func(v ssa.Value, d int) {
+		if v == nil || seen[v] || !ok {
+			return
+		}
+		seen[v] = true
+		if v.Referrers() == nil {
+			return
+		}
+		for _, ref := range *v.Referrers() {
+			switch x := ref.(type) {
+			case *ssa.Phi:
+				follow(x, d)
+			case *ssa.ChangeInterface:
+				follow(x, d)
+			case *ssa.MakeInterface:
+				follow(x, d)
+			case *ssa.Return, *ssa.DebugRef:
+			case *ssa.Store:
+				if a, isA := x.Addr.(*ssa.Alloc); isA && x.Val == v {
+					if a.Referrers() != nil {
+						for _, r2 := range *a.Referrers() {
+							if ld, isLd := r2.(*ssa.UnOp); isLd && ld.Op == token.MUL {
+								follow(ld, d)
+							}
+						}
+					}
+				} else if x.Val == v {
+					ok = false
+				}
+			case *ssa.BinOp:
+				if x.Op != token.EQL && x.Op != token.NEQ {
+					ok = false
+					continue
+				}
+				other := x.X
+				if stripConv(other) == stripConv(v) || other == v {
+					other = x.Y
+				}
+				other = stripConv(other)
+				if c, isC := other.(*ssa.Const); isC && c.IsNil() {
+					continue
+				}
+				if ld, isLd := other.(*ssa.UnOp); isLd && ld.Op == token.MUL {
+					if _, isG := ld.X.(*ssa.Global); isG {
+						continue
+					}
+				}
+				ok = false
+			case ssa.CallInstruction:
+				cal := x.Common().StaticCallee()
+				if cal == nil || !w.InModule(cal) || cal.Blocks == nil || d >= 2 {
+					ok = false
+					continue
+				}
+				for _, ai := range argIndexOf(x.Common(), v) {
+					if ai < len(cal.Params) {
+						follow(cal.Params[ai], d+1)
+					}
+				}
+			default:
+				ok = false
+			}
+		}
+	}
+	for _, fn := range w.withModuleCallees(rt, 2) {
+		for _, c := range CallsIn(fn) {
+			call, isCall := c.(*ssa.Call)
+			if !isCall || !call.Common().IsInvoke() || call.Common().Method.Name() != "ExecuteTrx" || !strings.HasSuffix(w.Canon(call.Common().Value), ".TrxEVMHandler") {
+				continue
+			}
+			found = true
+			follow(call, 0)
+			// the helper's own result in its callers
+			if fn != rt {
+				for _, cs := range w.nodeCallers(fn) {
+					if v, isV := cs.Site.(ssa.Value); isV {
+						follow(v, 1)
+					}
+				}
+			}
+		}
+	}
+	return found && ok
 }
 
 func a5(w *World, r *Report) {
